@@ -326,6 +326,12 @@ func child(engine string) {
 				both(fmt.Sprintf("set%d_%d", a[1], a[3]), a[0], uint64(a[2]))
 			case "cp":
 				both(fmt.Sprintf("cp%d_%d", a[1], a[3]), a[0], uint64(a[2]), uint64(a[4]))
+			case "fil":
+				both(fmt.Sprintf("fil%d_%d", a[1], a[3]), a[0], uint64(a[2]))
+			case "grw":
+				both(fmt.Sprintf("grw%d_%d", a[1], a[2]), a[0])
+			case "cpc":
+				both(fmt.Sprintf("cpc%d_%d", a[1], a[3]), a[0], uint64(a[2]), uint64(a[4]))
 			case "clr":
 				both(fmt.Sprintf("clr%d", a[1]), a[0], uint64(a[2]))
 			case "pass":
